@@ -342,6 +342,56 @@ fn corpus(kind: Kind) -> Vec<History> {
     v
 }
 
+/// member population as a dimension: the activity answers must follow the schedule alone,
+/// with no member, one, or many; created empty, emptied before the start, filled while running
+fn populations(kind: Kind) -> Vec<History> {
+    let mut v = vec![];
+    let (st, en) = (T0 + 100 * S, T0 + 200 * S);
+    let window_looks = || -> Vec<Step> {
+        let mut l = vec![look(T0 + 1)];
+        l.extend(looks_after(T0 + 1, st, en));
+        l.push(look(en + 50));
+        l
+    };
+    for n in [0u64, 1, 12] {
+        let members: Vec<(u64, u32)> = (0..n).map(|i| (100 + i, (i % 3) as u32)).collect();
+        let ids: Vec<u64> = members.iter().map(|m| m.0).collect();
+        let mk = |limit: u32| {
+            let mut i = base_init(kind, T0, st, en);
+            i.members = vec![if kind == Kind::Merkle { vec![] } else { members.clone() }];
+            i.limit = limit;
+            i.funds = native(fee_for(kind, limit));
+            i
+        };
+        // as created, through the whole window
+        v.push(History { init: mk(20), steps: window_looks() });
+        // every member removed before the start: empty while the window is open
+        let mut steps = vec![call(T0 + 1, 60, Op::Remove(ids.clone()))];
+        steps.extend(looks_after(T0 + 1, st, en));
+        // members arrive while it is running, then it is shortened to end at once
+        steps.insert(3, call(st, 60, Op::Add(vec![(150, 0)])));
+        steps.push(look(en + 1));
+        v.push(History { init: mk(20), steps });
+        // window edited while (possibly) empty
+        v.push(History {
+            init: mk(20),
+            steps: vec![
+                call(T0 + 1, 60, Op::Remove(ids.clone())),
+                call(T0 + 2, 60, Op::UpdStart(st - 10)),
+                look(st - 11),
+                look(st - 10),
+                call(st - 10, 60, Op::UpdEnd(st + 10)),
+                look(st + 9),
+                call(st + 9, 61, Op::Add(vec![(151, 1)])),
+                look(st + 9),
+                look(st + 10),
+                look(st + 11),
+            ],
+        });
+    }
+    v
+}
+
 fn probes(kind: Kind) -> Vec<History> {
     let mut v = vec![];
     let (st, en) = (T0 + 100 * S, T0 + 200 * S);
@@ -541,6 +591,9 @@ fn gen_histories(a: &Args) -> Vec<History> {
     }
     for k in KINDS {
         v.extend(probes(k));
+    }
+    for k in KINDS {
+        v.extend(populations(k));
     }
     let nrand = if a.thorough() { 1500 } else { 100 };
     for k in KINDS {
